@@ -1,5 +1,6 @@
 SPECIFICATION TraceSpec
 CONSTANTS SlotDur = 12000
+ Extra = 300
  NextResolve = "either"
  TickMode = "either"
  Variant = "code"
